@@ -169,6 +169,11 @@ def r2_r4(ctx, cfg):
                 is_param(bal[2][0][1], "amount")
         ctx.ob("C09.R4", key, "saves(account -> amount)", ok, "set_balance does not save NativeBalance(amount) under account", fn=f,
                sample="BALANCES.save(bank_storage, account, &NativeBalance(amount))")
+        # ... in normal form: zero coins dropped, denominations sorted and merged (the single-denomination query reads the first
+        # entry of a denomination, AllBalances lists every entry, Supply adds all of them - they agree only on normalised lists)
+        okn = len(sv) == 1 and contains(P.call_args(f, sv[0][1], sv[0][0])[3], lambda x: x[0] == "mutby" and x[1] == "cw_utils::NativeBalance::normalize")
+        ctx.ob("C09.R4", key, "saved-balance-is-normalised", okn, "set_balance saves the coin list without NativeBalance::normalize()", fn=f,
+               sample="balance.normalize() before BALANCES.save")
     key = B + "get_balance"
     f = ctx.need_fn("C09.R4", key)
     if f is not None:
@@ -344,10 +349,27 @@ def r5(ctx, cfg):
                         any(contains(x, lambda y: is_param(y, "denom")) for x in args)]
                 if not good or len(ec) != len(good):
                     bad.append("%s at line %s under %s" % (t["callee"]["name"], t["line"], [(p0, pol) for p0, a0, pol in ec]))
+            if not sites:
+                # the scan with its denomination test is there, but nothing is added under it
+                scan = any(c[0] == "bool" and c[1][0] == "eq" and any(peel(x)[0] == "field" and peel(x)[2] == "denom" and peel(peel(x)[1])[0] == "bound" for x in c[1][1]) and
+                           any(contains(x, lambda y: is_param(y, "denom")) for x in c[1][1])
+                           for g0 in F.lexical(key) for b0 in g0.order for e0, c in q.dominating_conditions(P, g0, b0))
+                if scan:
+                    bad.append("the scan tests coin.denom == denom but adds no coin.amount")
             ctx.ob(R, key, "supply-adds-only-coins-of-the-queried-denomination", not bad,
                    "an amount is added to the supply without (only) `coin.denom == denom` having held: %s" % bad, fn=g,
                    sample="%d add site(s) guarded by coin.denom == denom" % len(sites) if sites else
                    "NOT DECIDED: no `add(.., coin.amount)` site recognised in get_supply")
+            # only additions, and the answer is made from what was added (a summation whose add is gone answers zero)
+            arith = [(t0["callee"]["name"], t0["line"]) for g0 in F.lexical(key) for b0, t0 in g0.calls()
+                     if t0["callee"]["name"] in ("sub", "sub_assign", "checked_sub", "saturating_sub", "mul", "mul_assign", "div", "checked_mul", "mul_floor")]
+            ctx.ob(R, key, "supply-is-a-sum", not arith, "get_supply applies %s" % arith, fn=g, sample="add / add_assign / sum only")
+            if sites:
+                res0 = [v for site, v in q.success_return_sites(P, g)]
+                fed = bool(res0) and all(contains(v, lambda y: y[0] == "mutby" and y[1].rsplit("::", 1)[-1] in ("add_assign", "add", "checked_add") or
+                                                  y[0] == "call" and y[1].rsplit("::", 1)[-1] in ("sum", "add", "checked_add") and
+                                                  contains(y, lambda z: z[0] == "field" and z[2] == "amount")) for v in res0)
+                ctx.ob(R, key, "supply-answer-is-the-sum", fed, "the amount get_supply answers is not made from the amounts it adds", fn=g, sample="coin(sum of coin.amount, denom)")
             if sites:
                 res = [peel(v) for site, v in q.success_return_sites(P, g)]
                 ok = bool(res) and all(contains(v, lambda y: y[0] == "call" and y[1] == "cosmwasm_std::coin" and is_param(y[2][1], "denom")) for v in res)
